@@ -49,7 +49,7 @@ pub fn patterns(ctx: &Ctx, shape: usize, att: bool) -> (Vec<u64>, bool) {
     (v, false)
 }
 
-pub fn run_one(sz: &Sizes, shape: usize, att: bool, pat: u64) -> (Vec<(String, Value)>, bool, i32, usize) {
+pub fn run_one(sz: &Sizes, shape: usize, att: bool, pat: u64, off: u32) -> (Vec<(String, Value)>, bool, i32, usize) {
     let m = need_mon();
     let shape_id = (shape * 2 + att as usize) as u64;
     let len = shape_len(sz, shape);
@@ -66,7 +66,8 @@ pub fn run_one(sz: &Sizes, shape: usize, att: bool, pat: u64) -> (Vec<(String, V
         }
     }
     let target: M = (0, Blob(body(mid(shape_id, pat, 0), len)), senders, regions);
-    m.arm_enobufs(pat, 10);
+    // the 10-bit pattern covers attempts off..off+10 of the send (off = 0: the first ten)
+    m.arm_enobufs(pat << off, 10 + off as i32);
     let r = tx.send(target);
     let attempts = m.disarm_enobufs();
     let ok = r.is_ok();
@@ -135,6 +136,7 @@ pub fn run(ctx: &Ctx) {
     let rep = &ctx.rep;
     let sz = sizes();
     let m = need_mon();
+    let off = ctx.opt_u64("off", 0).min(50) as u32;
     let mut idx = 0u64;
     for shape in 0..5usize {
         for att in [false, true] {
@@ -151,9 +153,9 @@ pub fn run(ctx: &Ctx) {
                     continue;
                 }
                 let _g = op_begin("send-under-enobufs-then-receive", case);
-                let (problems, ok, attempts, rerrs) = run_one(&sz, shape, att, pat);
+                let (problems, ok, attempts, rerrs) = run_one(&sz, shape, att, pat, off);
                 drop(_g);
-                rep.case(&(shape, att, pat, sz.sndbuf), true);
+                rep.case(&(shape, att, pat, sz.sndbuf, off), true);
                 rep.stat("sends", 1);
                 rep.stat(if ok { "sends_ok" } else { "sends_err" }, 1);
                 rep.stat("transmission_attempts", attempts as i64);
@@ -164,7 +166,7 @@ pub fn run(ctx: &Ctx) {
                 } else {
                     errs += 1
                 }
-                let base = json!({"shape": SHAPES[shape], "attachments": att, "pattern": format!("{:010b}", pat), "sndbuf": sz.sndbuf, "len": shape_len(&sz, shape),
+                let base = json!({"shape": SHAPES[shape], "attachments": att, "pattern": format!("{:010b}", pat), "first_attempt_covered": off, "sndbuf": sz.sndbuf, "len": shape_len(&sz, shape),
                     "send_ok": ok, "attempts": attempts, "variant": variant()});
                 let mut seen = std::collections::BTreeSet::new();
                 for (k, d) in problems {
